@@ -63,9 +63,9 @@ Variable H : handler St.
 Variable flt : afilter.
 Variable tr : transport.
 
-Record front := { srv : Tracker.server; conns : list conn; units : list (N * St) }.
+Record front := { srv : Tracker.server; conns : list conn; units : ucfg St }.
 
-Definition finit (max_sessions : nat) (us : list (N * St)) : front :=
+Definition finit (max_sessions : nat) (us : ucfg St) : front :=
   {| srv := Tracker.init max_sessions; conns := []; units := us |}.
 
 (* TcpServerConnectionHandler::handle: Tcp => Ok((phys, AuthorizationType::None)) at once;
